@@ -58,7 +58,7 @@ pub fn check(ops: &TypeOps, v: &dyn Val, cfg: &SerCfg) -> Result<(), String> {
 
 pub fn run_serde(ctx: &mut Ctx, loc: &mut Local, r: &mut Rng) {
     let fam = family();
-    let n = ctx.scaled(ctx.tier.pick(12_000, 300_000)) / ctx.nshards as u64 + 1;
+    let n = ctx.scaled(ctx.tier.pick(100_000, 1_000_000)) / ctx.nshards as u64 + 1;
     for k in 0..n {
         let ops = &fam[(k as usize) % fam.len()];
         let vseed = r.next();
